@@ -9,6 +9,13 @@ from . import faults as fl
 from .ops import shared_circuits
 
 
+import os
+
+# generation tier: "thorough" draws longer sessions and larger bounds.  Set by
+# the CLI before workers fork; fresh interpreters get it through LABSIM_TIER.
+TIER = os.environ.get("LABSIM_TIER", "quick")
+
+
 def _spec_kinds(spec, acc: Counter, depth=0) -> None:
     for s in spec:
         acc[type(s).__name__] += 1
@@ -31,9 +38,9 @@ class Profile:
     monitors: list = []
     clients: list = []
     steps = (25, 40)
-    runs = {"quick": 1500, "thorough": 60000}
-    det_runs = {"quick": 20, "thorough": 200}
-    hash_runs = {"quick": 6, "thorough": 40}
+    runs = {"quick": 1500, "thorough": 30000}
+    det_runs = {"quick": 20, "thorough": 400}
+    hash_runs = {"quick": 6, "thorough": 120}
     hash_seeds = {"quick": [1, 2], "thorough": [1, 2, 3, 4]}
     run_timeout = 120.0
     expected_probes: list = []
@@ -43,8 +50,12 @@ class Profile:
     assumptions: list = []
 
     def base_cfg(self, rng) -> dict:
+        lo, hi = self.steps
+        if TIER == "thorough":
+            lo, hi = int(lo * 1.3), int(hi * 1.8)
         return {
-            "steps": rng.randint(*self.steps),
+            "tier": TIER,
+            "steps": rng.randint(lo, hi),
             "min_circuits": rng.randint(2, 4),
             "max_circuits": rng.randint(6, 12),
             "max_modes": rng.randint(3, 8),
@@ -106,7 +117,7 @@ class Profile:
 
 class C08(Profile):
     name = "C08"
-    runs = {"quick": 3000, "thorough": 150000}
+    runs = {"quick": 3000, "thorough": 60000}
     steps = (25, 40)
 
     @property
@@ -133,7 +144,7 @@ class C08(Profile):
 
 class C02(Profile):
     name = "C02"
-    runs = {"quick": 6000, "thorough": 300000}
+    runs = {"quick": 6000, "thorough": 120000}
     steps = (20, 40)
     expected_probes = ["add_heralded_sub", "ancilla_inside_span",
                        "herald_in_ne_out_on_parent_with_ancilla",
@@ -157,7 +168,7 @@ class C02(Profile):
 
 class C09(Profile):
     name = "C09"
-    runs = {"quick": 4000, "thorough": 200000}
+    runs = {"quick": 4000, "thorough": 80000}
     steps = (25, 45)
     expected_probes = ["rewrite_unpack", "rewrite_compress",
                        "rewrite_remove_nonadj", "copy_plain", "copy_frozen"]
@@ -187,7 +198,7 @@ class C09(Profile):
 
 class C10(Profile):
     name = "C10"
-    runs = {"quick": 5000, "thorough": 250000}
+    runs = {"quick": 5000, "thorough": 100000}
     steps = (25, 45)
     expected_probes = ["twin_compared", "twin_unbuildable",
                        "invalid_value_surfaced", "rejected_update_checked"]
@@ -211,7 +222,7 @@ class C10(Profile):
 
 class C11(Profile):
     name = "C11"
-    runs = {"quick": 2500, "thorough": 100000}
+    runs = {"quick": 2500, "thorough": 50000}
     steps = (30, 60)
     expected_probes = ["fresh_compared", "sampling_without_prior_read",
                        "both_raise", "first_read_after_fault",
@@ -232,8 +243,8 @@ class C11(Profile):
     def swarm(self, rng):
         cfg = super().swarm(rng)
         cfg["max_modes"] = rng.randint(2, 5)
-        cfg["emu_max_modes"] = 6
-        cfg["max_total_modes"] = 8
+        cfg["emu_max_modes"] = 6 if TIER != "thorough" else rng.choice([6, 7])
+        cfg["max_total_modes"] = 8 if TIER != "thorough" else 9
         cfg["max_heralds"] = 2
         cfg["max_herald_photons"] = 2
         cfg["max_photons"] = rng.choice([1, 2, 2, 3])
@@ -250,7 +261,7 @@ class C11(Profile):
 
 class C07(Profile):
     name = "C07"
-    runs = {"quick": 1500, "thorough": 40000}
+    runs = {"quick": 1500, "thorough": 30000}
     steps = (25, 45)
     expected_probes = ["per_call_checked", "seed_pair_checked",
                        "distribution_checked"]
@@ -269,8 +280,8 @@ class C07(Profile):
     def swarm(self, rng):
         cfg = super().swarm(rng)
         cfg["max_modes"] = rng.randint(2, 5)
-        cfg["emu_max_modes"] = 6
-        cfg["max_total_modes"] = 8
+        cfg["emu_max_modes"] = 6 if TIER != "thorough" else rng.choice([6, 7])
+        cfg["max_total_modes"] = 8 if TIER != "thorough" else 9
         cfg["max_heralds"] = 2
         cfg["max_herald_photons"] = 2
         cfg["max_photons"] = rng.choice([1, 2, 2, 3])
@@ -286,7 +297,7 @@ class C07(Profile):
 class C15(Profile):
     name = "C15"
     real_hash_check = True
-    runs = {"quick": 3000, "thorough": 120000}
+    runs = {"quick": 3000, "thorough": 60000}
     steps = (30, 55)
     expected_probes = ["protocol_checked", "rho_checked",
                        "same_state_other_order", "qpu_failure_propagated",
@@ -318,14 +329,14 @@ class C15(Profile):
         cfg["p_param"] = 0
         cfg["convert"] = rng.random() < 0.5
         cfg["emu_max_modes"] = 6
-        cfg["tomo_qubits"] = [1, 2, 2]
+        cfg["tomo_qubits"] = [1, 2, 2] if TIER != "thorough" else [1, 2, 2, 3]
         cfg["min_circuits"] = 0
         return cfg
 
 
 class C14(Profile):
     name = "C14"
-    runs = {"quick": 3000, "thorough": 150000}
+    runs = {"quick": 3000, "thorough": 60000}
     steps = (30, 55)
     expected_probes = ["map_checked", "default_model_map", "noisy_model_map",
                        "same_seed_remap", "resample_loop_scripted",
@@ -361,7 +372,7 @@ class C14(Profile):
 class C17(Profile):
     name = "C17"
     real_hash_check = True
-    runs = {"quick": 4000, "thorough": 200000}
+    runs = {"quick": 4000, "thorough": 80000}
     steps = (25, 45)
     expected_probes = ["indexing_checked", "mapping_checked",
                        "mapping_under_two_orders", "column_order_differed",
